@@ -260,3 +260,56 @@ pub proof fn lemma_v_past_stable(w0: World, steps: Seq<VOp>, k: int)
         }
     }
 }
+
+// ---- non-vacuity witnesses: a genesis world exists, and a mint followed by a delegation and a
+//      ledger advance is a valid history from it ----
+pub open spec fn w_empty() -> World {
+    World { instance: Map::empty(), persistent: Map::empty(), temporary: Map::empty(), temp_live: Map::empty(),
+        ledger_seq: 7, timestamp: 0, max_entry_ttl: 10, min_temp_ttl: 1, network_id: Seq::empty(), this: Address { id: 0 },
+        auths: Set::empty(), auth_args: Set::empty(), self_auths: Seq::empty(), events: Seq::empty(), calls: Seq::empty(), ext: 0 }
+}
+pub proof fn lemma_v_witness()
+    ensures v_genesis(w_empty()),
+        v_valid(w_empty(), seq![
+            VOp::TransferUnits { src: None, dst: Some(Address { id: 1 }), amt: 5 },
+            VOp::Delegate { acct: Address { id: 1 }, dele: Address { id: 2 } },
+            VOp::Tick { seq: 9, ts: 1 }]),
+{
+    broadcast use sdk_store;
+    let w0 = w_empty();
+    let a1 = Address { id: 1 };
+    let a2 = Address { id: 2 };
+    let s3 = seq![VOp::TransferUnits { src: None, dst: Some(a1), amt: 5 }, VOp::Delegate { acct: a1, dele: a2 }, VOp::Tick { seq: 9, ts: 1 }];
+    let s2 = s3.drop_last();
+    let s1 = s2.drop_last();
+    let s0 = s1.drop_last();
+    assert(s0.len() == 0);
+    assert(v_valid(w0, s0));
+    let r0 = v_run(w0, s0);
+    assert(r0.persistent == w0.persistent && r0.instance == w0.instance);
+    // mint 5 to a1
+    assert(s1.last() == VOp::TransferUnits { src: None, dst: Some(a1), amt: 5 });
+    assert(cp_num(r0, t_total()) == 0);
+    assert(push_guard(r0, t_total(), CheckpointOp::Add, 5));
+    let m1 = xfer_from_post(r0, None, 5);
+    assert(v_units(m1, a1) == 0);
+    assert(xfer_guard(r0, None, Some(a1), 5));
+    assert(v_valid(w0, s1));
+    let r1 = v_run(w0, s1);
+    // a1 delegates to a2
+    assert(s2.last() == VOp::Delegate { acct: a1, dele: a2 });
+    let x1 = xfer_post(r0, None, Some(a1), 5);
+    assert(x1 == set_units_post(push_post(r0, t_total(), CheckpointOp::Add, 5), a1, 5));
+    assert(r1.persistent == x1.persistent && r1.instance == x1.instance);
+    assert(v_delegatee(r1, a1).is_none());
+    assert(v_units(r1, a1) == 5);
+    let p = delegate_pre(r1, a1, a2);
+    assert(v_units(p, a1) == 5);
+    assert(cp_num(p, t_acct(a2)) == 0);
+    assert(push_guard(p, t_acct(a2), CheckpointOp::Add, 5));
+    assert(delegate_guard(r1, a1, a2));
+    assert(v_valid(w0, s2));
+    // the ledger advances from 7 to 9
+    assert(v_run(w0, s2).ledger_seq == 7);
+    assert(v_valid(w0, s3));
+}
